@@ -197,7 +197,8 @@ class Translator:
             while base.get("kind") == "ImplicitCastExpr":
                 base = skip_parens(base["inner"][0])
             if base.get("kind") == "DeclRefExpr":
-                return base["referencedDecl"]["name"] + "_" + n["name"]
+                bn = base["referencedDecl"]["name"]
+                return getattr(self, "alias", {}).get(bn, bn) + "_" + n["name"]
             if base.get("kind") == "MemberExpr":
                 return self.lvalue_key(base) + "_" + n["name"]
         if k == "UnaryOperator" and n.get("opcode") == "*":
@@ -734,7 +735,7 @@ def body_uses_loops(n):
 
 
 def translate_function(fn, gname=None, structs=None, known_funcs=None, tables=None, outputs=None, arrays=(),
-                       call_hooks=None, extra_params=(), skip_params=()):
+                       call_hooks=None, extra_params=(), skip_params=(), alias=None):
     """fn: FunctionDecl JSON.  Pointer-to-struct parameters are flattened into one Z parameter per
     field (structs: typedef -> fields).  outputs: list of location keys returned after the return
     value (default: all fields of non-const struct pointer parameters that are assigned)."""
@@ -744,6 +745,9 @@ def translate_function(fn, gname=None, structs=None, known_funcs=None, tables=No
     T.call_hooks = call_hooks or {}
     T.skip = tuple(skip_params)
     T.extra = list(extra_params)
+    # alias = {"b": "a"}: the call passes the same object for both struct pointer parameters (`a == b is allowed`):
+    # every access through b reads and writes the fields of a; b contributes no parameters
+    T.alias = dict(alias or {})
     env = {}
     params = [(n, t) for n, t in extra_params]
     for n, t in extra_params:
@@ -755,7 +759,7 @@ def translate_function(fn, gname=None, structs=None, known_funcs=None, tables=No
         name = p.get("name")
         if name is None:
             continue
-        if name in skip_params:
+        if name in skip_params or name in T.alias:
             env[name] = name
             continue
         ty = strip_quals(tystr(p))
